@@ -132,6 +132,16 @@ func (l *c18Log) exec(e c18Exec) {
 // primitive under test and returns the per-operation interpreter and an
 // optional epilogue run by the root goroutine after every script has ended.
 func c18Play(t *testing.T, c c18Case, setup func(clk *c18Clock, log *c18Log) (do func(g, i int, op c18Op), finish func())) (*c18Log, kit.BubbleResult) {
+	return c18PlayRounds(t, c, false, setup)
+}
+
+// c18PlayRounds: with rounds=true and a burst case (every gap and hold zero)
+// the goroutines additionally meet at a spin barrier before their i-th
+// operation, so that every round is a real-parallel collision. Only used for
+// primitives whose operations never need virtual time to pass in order to
+// return (a goroutine spinning at the barrier is not durably blocked, so
+// virtual time stands still meanwhile); the spin is bounded in any case.
+func c18PlayRounds(t *testing.T, c c18Case, rounds bool, setup func(clk *c18Clock, log *c18Log) (do func(g, i int, op c18Op), finish func())) (*c18Log, kit.BubbleResult) {
 	log := &c18Log{}
 	res := kit.Bubble(t, func() {
 		clk := &c18Clock{t0: time.Now()}
@@ -141,6 +151,24 @@ func c18Play(t *testing.T, c c18Case, setup func(clk *c18Clock, log *c18Log) (do
 		// short spin barrier, so that operations scheduled for one virtual
 		// instant really contend in parallel (the windows inside the primitives
 		// that have no blocking point are only reachable this way).
+		maxOps := 0
+		for _, ops := range c.Gs {
+			if len(ops) > maxOps {
+				maxOps = len(ops)
+			}
+			for _, o := range ops {
+				if o.G != 0 || o.H != 0 {
+					rounds = false
+				}
+			}
+		}
+		roundArr := make([]atomic.Int32, maxOps+1)
+		roundNeed := make([]int32, maxOps+1)
+		for _, ops := range c.Gs {
+			for i := range ops {
+				roundNeed[i]++
+			}
+		}
 		gate := make(chan struct{})
 		var arrived atomic.Int32
 		n := int32(len(c.Gs))
@@ -156,6 +184,14 @@ func c18Play(t *testing.T, c c18Case, setup func(clk *c18Clock, log *c18Log) (do
 					}
 				}
 				for i := 0; i < len(ops); i++ {
+					if rounds && i > 0 {
+						roundArr[i].Add(1)
+						for spins := 0; roundArr[i].Load() < roundNeed[i] && spins < 300000; spins++ {
+							if spins > 2000 {
+								runtime.Gosched()
+							}
+						}
+					}
 					c18Sleep(ops[i].G)
 					do(g, i, ops[i])
 				}
